@@ -98,7 +98,14 @@ impl CargoTomlParser {
             return;
         };
 
-        if !Self::DEPENDENCY_TABLES.contains(&name.as_str()) {
+        // Platform-specific dependencies live in [target.<cfg>.dependencies] (and
+        // .dev-dependencies / .build-dependencies): the last component names the section
+        let section = match name.strip_prefix("target.") {
+            Some(rest) => rest.rsplit_once('.').map_or(rest, |(_, last)| last),
+            None => name.as_str(),
+        };
+
+        if !Self::DEPENDENCY_TABLES.contains(&section) {
             return;
         }
 
